@@ -1,4 +1,4 @@
-SPECIFICATION AbortSpec
+SPECIFICATION NegSpec
 CONSTANTS
   Capacity = 1000000
   AnchorSize = 330
@@ -10,9 +10,11 @@ CONSTANTS
   Rems = {0}
   Near = 1
   Lo = 100
-  Hi = 400
-  Step = 50
+  Hi = 700
+  Step = 3
   RbfDepth = 4
-  TightCap = FALSE
-INVARIANTS NeverAbort
+  PeerDepth = 2
+  PeerWide = TRUE
+  TightCap = TRUE
+INVARIANTS Synced Bounded BoundedDefault BothSigned Agree NoStall NoAbort Between TxInvariants
 CHECK_DEADLOCK FALSE
